@@ -127,6 +127,55 @@ def _generate(args: Any) -> Optional[Dict[str, Any]]:
     return {"what": what, "accepted": True}
 
 
+ARG_TYPES = ["int", "str", "List[Item]", "float", "bool"]
+
+
+def signature_models() -> List[Tuple[str, str]]:
+    """Meta-models that differ in the *number* of arguments of methods, verification functions and constructors
+    (0..4): generators format signatures by argument count."""
+    out: List[Tuple[str, str]] = []
+    for nargs in range(0, 5):
+        args = ", ".join(f"arg_{i}: {ARG_TYPES[i]}" for i in range(nargs))
+        for descendant in (False, True):
+            for kind in ("method", "verification", "constructor"):
+                lines = ['class Item:', '    """Represent an item."""', '', '    text: str', '    """Text"""', '',
+                         '    def __init__(self, text: str) -> None:', '        self.text = text', '', '']
+                if kind == "verification":
+                    lines += ['@verification', '@implementation_specific',
+                              f'def is_fine({args}) -> bool:', '    """Check something."""', '    pass', '', '']
+                lines += ['class Something:', '    """Represent something."""', '']
+                if kind == "constructor":
+                    for i in range(nargs):
+                        lines += [f'    prop_{i}: {ARG_TYPES[i]}', f'    """Property {i}"""', '']
+                    params = "".join(f", prop_{i}: {ARG_TYPES[i]}" for i in range(nargs))
+                    lines += [f'    def __init__(self{params}) -> None:']
+                    lines += [f'        self.prop_{i} = prop_{i}' for i in range(nargs)] or ['        pass']
+                    lines += ['']
+                if kind == "method":
+                    lines += ['    @implementation_specific',
+                              f'    def do_something(self{", " + args if args else ""}) -> int:',
+                              '        """Do something."""', '        pass', '']
+                if kind == "verification" and nargs == 0:
+                    pass
+                if kind != "constructor" and kind != "method":
+                    lines += ['    pass', '']
+                lines += ['']
+                if descendant:
+                    lines += ['class Other(Something):', '    """Represent something else."""', '']
+                    if kind == "constructor" and nargs:
+                        params = "".join(f", prop_{i}: {ARG_TYPES[i]}" for i in range(nargs))
+                        call = ", ".join(f"prop_{i}=prop_{i}" for i in range(nargs))
+                        lines += [f'    def __init__(self{params}) -> None:',
+                                  f'        Something.__init__(self, {call})', '']
+                    else:
+                        lines += ['    pass', '']
+                    lines += ['']
+                lines += ['__version__ = "dummy"', '__xml_namespace__ = "https://dummy.com"', '']
+                out.append((f"{kind} with {nargs} argument(s){', with a descendant' if descendant else ''}",
+                            "\n".join(lines)))
+    return out
+
+
 def sweep(seed: int = 0, stride: int = 4, max_classes: int = 3, jobs: int = 16, **_: Any) -> Dict[str, Any]:
     import multiprocessing as mp
     repo = pathlib.Path(os.environ.get("VERIF_REPO", "/repo"))
@@ -145,6 +194,8 @@ def sweep(seed: int = 0, stride: int = 4, max_classes: int = 3, jobs: int = 16, 
             abstract = [any(k in ps for ps in shape) for k in range(n)]
             text = c05.render(shape, names, abstract, [True if not shape[k] else None for k in range(n)], False)
             tasks.append((f"hierarchy {shape}", text, TARGETS))
+    for what, text in signature_models():
+        tasks.append((what, text, TARGETS))
     for p in sorted((repo / "dev" / "test_data" / "common_meta_models").glob("*.py")):
         if p.stat().st_size < 6000:
             tasks.append((str(p.relative_to(repo)), p.read_text(encoding="utf-8"), TARGETS))
